@@ -28,7 +28,10 @@
 #include <hgraph/types/static_node.h>
 #include <hgraph/types/subgraph_wiring.h>
 
+#include <array>
 #include <cstdlib>
+#include <span>
+#include <typeindex>
 #include <map>
 #include <memory>
 #include <optional>
@@ -91,6 +94,7 @@ namespace
         {
             const std::string l{n.label()};
             if (l.rfind("dyn_sub_", 0) == 0) { base = std::to_string(k2lbl(std::stoi(l.substr(8)))); }
+            else if (l.rfind("ng_", 0) == 0) { base = l.substr(3); }
             else { base = "#" + l + ":" + std::to_string(n.node_index()); }
         }
         return path_of(n.graph()) + base;
@@ -191,6 +195,69 @@ namespace
             out.set(v);
         }
     };
+
+    // ngate: the same node as `gate`, built as a NATIVE node (NodeBuilder::native): its readiness is decided by
+    // the generic gate of node.cpp (`ready_to_evaluate` over NodeTypeMetaData::valid_inputs), not by the
+    // static front-end's own wrapper.  valid_inputs lists the slots marked V (explicitly EMPTY for "UU").
+    template <int Flags>
+    struct NGateDef {};
+
+    std::string view_desc(const TSInputView &in)
+    {
+        std::string s = in.valid() ? "1" : "0";
+        s += in.modified() ? "1" : "0";
+        s += ",";
+        s += in.valid() ? std::to_string(static_cast<long long>(in.value().checked_as<Int>())) : std::string("-");
+        return s;
+    }
+
+    NodeBuilder native_gate(bool ua, bool ub)
+    {
+        auto       &registry = TypeRegistry::instance();
+        const auto *int_meta = registry.register_scalar<Int>("int");
+        const auto *ts_int   = registry.ts(int_meta);
+        const auto *input_schema = registry.un_named_tsb({{"a", ts_int}, {"b", ts_int}});
+
+        NodeTypeMetaData schema;
+        schema.display_name  = "n_gate";
+        schema.input_schema  = input_schema;
+        schema.output_schema = ts_int;
+        schema.node_kind     = NodeKind::Compute;
+        std::vector<std::size_t> valid;
+        if (!ua) { valid.push_back(0); }
+        if (!ub) { valid.push_back(1); }
+        schema.valid_inputs = std::move(valid);
+
+        NodeCallbacks callbacks;
+        callbacks.evaluate = [](const NodeView &view, DateTime now) {
+            auto root   = view.input(now);
+            auto bundle = root.as_bundle();
+            auto a = bundle[0];
+            auto b = bundle[1];
+            logf("E " + lbl_of(view) + " " + std::to_string(us(now)) + " a=" + view_desc(a) + " b=" + view_desc(b));
+            Int v = 0;
+            if (a.valid()) { v += a.value().checked_as<Int>(); }
+            if (b.valid()) { v += b.value().checked_as<Int>(); }
+            testing::set_output_value(view, now, Int{v});
+        };
+        return NodeBuilder::native(std::move(schema), std::move(callbacks),
+                                   TSEndpointSchema::non_peered(input_schema, {TSEndpointSchema::peered(ts_int),
+                                                                               TSEndpointSchema::peered(ts_int)}));
+    }
+
+    Value lbl_scalars(Int value)
+    {
+        auto       &registry    = TypeRegistry::instance();
+        const auto *int_meta    = registry.register_scalar<Int>("int");
+        const auto *bundle_meta = registry.un_named_bundle({{std::string{"lbl"}, int_meta}});
+        const auto  binding     = ValuePlanFactory::instance().type_for(bundle_meta);
+        Value       scalars{binding};
+        {
+            auto mutation = scalars.as_bundle().begin_mutation();
+            mutation["lbl"].checked_mutable_as<Int>() = value;
+        }
+        return scalars;
+    }
 
     struct HSink
     {
@@ -505,6 +572,19 @@ namespace
             else if (ua && !ub) { env.ports.emplace(key, wire<HGate<U, V>>(w, lbl, arg(0), arg(1))); }
             else { env.ports.emplace(key, wire<HGate<U, U>>(w, lbl, arg(0), arg(1))); }
         }
+        else if (n.kind == "ngate")
+        {
+            const std::string &f = n.args.at(2);
+            const bool ua = f.at(0) == 'U', ub = f.at(1) == 'U';
+            std::array<WiringPortRef, 2> ins{arg(0).erased(), arg(1).erased()};
+            const std::type_index def = ua ? (ub ? std::type_index(typeid(NGateDef<3>)) : std::type_index(typeid(NGateDef<2>)))
+                                           : (ub ? std::type_index(typeid(NGateDef<1>)) : std::type_index(typeid(NGateDef<0>)));
+            NodeBuilder nb = native_gate(ua, ub);
+            nb.label("ng_" + std::to_string(static_cast<long long>(lbl)));
+            WiringPortRef out = w.add_node(def, std::move(nb), std::span<const WiringPortRef>{ins.data(), ins.size()},
+                                           lbl_scalars(lbl));
+            env.ports.emplace(key, P{w, std::move(out)});
+        }
         else if (n.kind == "script")
         {
             if (n.args.size() >= 2) { env.ports.emplace(key, wire<HScriptIn>(w, lbl, num(0), arg(1))); }
@@ -538,7 +618,7 @@ namespace
             };
             for (auto &sn : shifted)
             {
-                if (sn.kind == "add" || sn.kind == "gate") { sn.args[0] = rename(sn.args[0]); sn.args[1] = rename(sn.args[1]); }
+                if (sn.kind == "add" || sn.kind == "gate" || sn.kind == "ngate") { sn.args[0] = rename(sn.args[0]); sn.args[1] = rename(sn.args[1]); }
                 else if (sn.kind == "acc" || sn.kind == "pass" || sn.kind == "sink" || sn.kind == "probe") { sn.args[0] = rename(sn.args[0]); }
                 else if ((sn.kind == "script" && sn.args.size() >= 2) || sn.kind == "thrower") { sn.args[1] = rename(sn.args[1]); }
             }
